@@ -108,6 +108,8 @@ pub struct ThreadsCfg {
     /// a half may perform two consecutive operations on its thread (two writes / two reads: a task
     /// that continues after a successful call) against one connection action
     pub doubles: bool,
+    /// share of the remaining time budget this part may use (so that later parts get their turn)
+    pub budget_share: f64,
 }
 
 pub fn explore_threads(ctx: &Ctx, d: &Driver, tc: &ThreadsCfg, out: &mut Outcome) {
@@ -179,7 +181,7 @@ pub fn explore_threads(ctx: &Ctx, d: &Driver, tc: &ThreadsCfg, out: &mut Outcome
     }
     let cases: Vec<(&Vec<u8>, &Vec<Act>)> = bases.iter().flat_map(|h| combos.iter().map(move |c| (h, c))).collect();
     let t0 = std::time::Instant::now();
-    let budget = ctx.budget_left();
+    let budget = (ctx.budget_left() * tc.budget_share).max(5.0);
     struct CaseRes {
         runs: u64,
         capped: bool,
